@@ -384,11 +384,15 @@ extern "C" void harness()
 	else if(op == 8) {                          // C16 x C09: a counted listener whose invocation throws has still been invoked: count 2 = the first two triggers, never a third
 		{ eventpp::CounterRemover<D> r(*d); TCb cb(9); r.prependListener(EVK(1), [cb](uint32_t a) { cb(a); }, 2); }
 		int calls = 0;
-		for(int t = 0; t < 3; t++) {
+		for(int t = 0; t < 4; t++) {
 			g_tr.clear();
-			if(t < 2) with_faults([&]() { d->dispatch(EVK(1), 20u + t); }); else d->dispatch(EVK(1), 22u);
+			bool failed = false;
+			if(t < 2) failed = with_faults([&]() { d->dispatch(EVK(1), 20u + t); }); else d->dispatch(EVK(1), 20u + t);
 			int c = 0; for(int i = 0; i < g_tr.n; i++) if(g_tr.e[i].id == 9) c++;
-			vf_assert(c == (t < 2 ? 1 : 0), 468);      // it is the first listener: reached on every trigger while attached
+			// it is the first listener, so every trigger that gets as far as invoking listeners reaches it while it is attached
+			// (a dispatch that failed before any listener ran -- the event lookup threw -- triggered nothing)
+			if(failed && g_tr.n == 0) vf_assert(c == 0, 479);
+			else vf_assert(c == (calls < 2 ? 1 : 0), 468);
 			calls += c;
 		}
 		vf_assert(calls == 2, 469);
